@@ -30,6 +30,11 @@ CONSTANTS
     StoreOf,      \* sequence: context instance -> storage id (shared() instances alias 0)
     InstKind,     \* sequence: how the instance is obtained: "new" | "shared" | "default" | "setup"
                   \* | "empty" (emit::Empty used as a Ctxt) | "none" (Option::<C>::None)
+                  \* | "made" (ThreadLocalCtxt::new() / default() called DURING the program by one of
+                  \*   its threads - action Make; every other kind exists before the program starts,
+                  \*   constructed by the driver).  Where an instance is constructed is a placement of
+                  \*   a program fragment onto a thread like any other: distinct instances never alias,
+                  \*   whichever threads made them and wherever they are used afterwards
                   \* (ThreadLocalCtxt::new(), ::shared(), ::default(), the context of a runtime
                   \* built by emit::setup()...init_slot(fresh slot)); only "shared" may alias
     NKeys,        \* property keys are 1..NKeys; a property map is a tuple, 0 = absent
@@ -68,7 +73,9 @@ NoTask(st) == [st |-> st, f |-> 0]
 CxInit == [fr  |-> [f \in Frames |-> NoFrame("none")],
            tk  |-> [k \in Tasks |-> NoTask("none")],
            stk |-> [t \in Threads |-> <<>>],
-           act |-> [t \in Threads |-> [s \in Stores |-> NoProps]]]
+           act |-> [t \in Threads |-> [s \in Stores |-> NoProps]],
+           \* the thread that constructed the instance: 0 = not constructed yet, NThreads + 1 = the driver
+           made |-> [i \in Insts |-> IF InstKind[i] = "made" THEN 0 ELSE NThreads + 1]]
 
 StoreOfFrame(c, f) == StoreOf[c.fr[f].inst]
 
@@ -150,13 +157,22 @@ CxUnwind(c, t) ==
          IN CxUnwind(c2, t)
 
 -----------------------------------------------------------------------------
-Log(rec) == hist' = Append(hist, rec @@ [exp |-> Obs(cx')])
+\* (an instance that does not exist yet cannot be observed: `made` tells the harness which ones do)
+Log(rec) == hist' = Append(hist, rec @@ [exp |-> Obs(cx'), made |-> cx'.made])
 
 Init ==
     /\ cx = CxInit
     /\ hist = <<>>
 
+\* ThreadLocalCtxt::new() / default() on thread t: instance i exists from now on (and is used by
+\* every thread: the type is Send + Sync + Copy)
+Make(t, i) ==
+    /\ cx.made[i] = 0
+    /\ cx' = [cx EXCEPT !.made[i] = t]
+    /\ Log([op |-> "make", t |-> t, s |-> StoreOf[i], c |-> i])
+
 Open(t, i, kind, props) ==
+    /\ cx.made[i] # 0
     /\ FreeFrames(cx) # {}
     /\ cx' = CxOpen(cx, t, i, kind, props)
     /\ Log([op |-> "open", t |-> t, s |-> StoreOf[i], f |-> NextFrame(cx), c |-> i, kind |-> kind,
@@ -170,6 +186,7 @@ EffProps(pairs) ==
 
 \* Frame::push / root of a property set that names a key more than once
 OpenDup(t, i, kind, pairs) ==
+    /\ cx.made[i] # 0
     /\ FreeFrames(cx) # {}
     /\ cx' = CxOpen(cx, t, i, kind, EffProps(pairs))
     /\ Log([op |-> "open", t |-> t, s |-> StoreOf[i], f |-> NextFrame(cx), c |-> i, kind |-> kind,
@@ -245,6 +262,7 @@ Panic(t) ==
     /\ Log([op |-> "panic", t |-> t, s |-> 0])
 
 Next ==
+    \/ \E t \in Threads, i \in Insts : Make(t, i)
     \/ \E t \in Threads, i \in Insts, kind \in Kinds \ {"current"}, p \in PropChoices :
           Open(t, i, kind, p)
     \/ \E t \in Threads, i \in Insts : "current" \in Kinds /\ Open(t, i, "current", NoProps)
